@@ -15,7 +15,7 @@ Obligations per (converter, K):
   O5 no store through dest on a path that returns an error
   O6 query mode and store mode reach returns of the same sign
 """
-from .facts import strip, cval, walk, show, callee_name, children
+from .facts import strip, cval, walk, walk_own, show, callee_name, children
 from .ival import Analysis, AV, type_range, ctype_test, join, INF
 from .core import Result, Broken, norm
 from .typemap import TypeMap, idname
@@ -96,7 +96,7 @@ class DestTracker:
     def derefs(self, e):
         """all (node, pointer expr) dereferencing dest inside tree e"""
         out = []
-        for n in walk(e):
+        for n in walk_own(e):
             k = n.get("k")
             if k == "un" and n.get("op") == "*" and self._is_dest(n["e"]):
                 out.append((n, n["e"]))
@@ -108,7 +108,7 @@ class DestTracker:
 
     def stores(self, e):
         out = []
-        for n in walk(e):
+        for n in walk_own(e):
             if n.get("k") == "bin" and n["op"].endswith("=") and n["op"] not in ("==", "!=", "<=", ">="):
                 p = self.deref_base(n["a"])
                 if p is not None:
@@ -202,7 +202,7 @@ def analyse_switch(prog, res, f, sel_idx, dest_idx, src_desc, ctype_of, sizeof_o
                         deref_bad.append((el, node, pv))
                 # O4 ctype arguments
                 if mode == "store":
-                    for n in walk(el):
+                    for n in walk_own(el):
                         ct = ctype_test(n)
                         if ct is not None:
                             arg, mask = ct
